@@ -535,8 +535,8 @@ def corner_scenarios(draw):
         nx = src.int(101, 110)
         add(X, nx, tail=False, prefix="x")
         add(Y, nx, tail=False, prefix="y")
-        add([X[0], [X[1][0], X[1][1] + 50], Y[0]] if src.bool(0.5) else [[X[1][0], X[1][1] + 50], Y[0]], 1,
-            tail=False, prefix="t")
+        add([X[0], [X[1][0], X[1][1] + 50], [Y[0][0] + src.choice([0, 50]), Y[0][1]], Y[1], Y[2]], 1, tail=False,
+            prefix="t")
         force_dt = "pacbio_ccs"
     elif kind == "monoexon_overlap":
         # overlapping unspliced transcripts on opposite strands (polyA tails vs polyT heads), unequal support
